@@ -58,6 +58,27 @@ def _fn_body(src, name):
     return src[m.end():i - 1]
 
 
+def _strip_comments(text):
+    """drop // comments (outside string and char literals)"""
+    out, i = [], 0
+    while i < len(text):
+        ch = text[i]
+        if ch == '"':
+            j = i + 1
+            while j < len(text) and text[j] != '"':
+                j += 2 if text[j] == "\\" else 1
+            out.append(text[i:j + 1]); i = j + 1
+        elif ch == "'" and re.match(_CHAR_LIT, text[i:]):
+            mm = re.match(_CHAR_LIT, text[i:])
+            out.append(mm.group(0)); i += mm.end()
+        elif text.startswith("//", i):
+            j = text.find("\n", i)
+            i = len(text) if j < 0 else j
+        else:
+            out.append(ch); i += 1
+    return "".join(out)
+
+
 def _rust_str(body):
     """code points of a Rust string literal body"""
     out, i = [], 0
@@ -98,45 +119,49 @@ def gen_quote_tables():
     body = _fn_body(src, "needs_ansi_c_quoting")
     if body.strip() != "c.is_ascii_control()":
         raise ValueError("escape.rs: needs_ansi_c_quoting is no longer `c.is_ascii_control()`: %r" % body.strip())
-    # double_quote: matches!(c, '$' | '`' | '"' | '\\')
-    body = _fn_body(src, "double_quote")
-    m = re.search(r"if\s+matches!\(\s*c\s*,([^)]*)\)\s*\{\s*result\.push\('\\\\'\);\s*\}\s*result\.push\(c\);", body, re.S)
+    # double_quote: matches!(c, '$' | '`' | '"' | '\\')   (the local's name and comments are free)
+    body = _strip_comments(_fn_body(src, "double_quote"))
+    m = re.search(r"if\s+matches!\(\s*c\s*,([^)]*)\)\s*\{\s*(\w+)\.push\('\\\\'\);\s*\}\s*\2\.push\(c\);", body, re.S)
     if not m:
         raise ValueError("escape.rs: double_quote escape set not found")
     dq = _alts(m.group(1), "double_quote")
-    if not re.search(r"result\.push\('\"'\);\s*for c in s\.chars\(\)", body) or not re.search(r"\}\s*result\.push\('\"'\);\s*result\s*$", body.strip()):
-        raise ValueError("escape.rs: double_quote no longer wraps in one pair of double quotes")
+    r = m.group(2)
+    lib.shape_guard(re.search(r"%s\.push\('\"'\);\s*for c in s\.chars\(\)" % r, body)
+                    and re.search(r"\}\s*%s\.push\('\"'\);\s*%s\s*$" % (r, r), body.strip()),
+                    "escape.rs: double_quote no longer wraps in one pair of double quotes in the transcribed way")
     # ansi_c_quote: arms 'X' => result.push_str("\\y"), then the octal arm, then the literal arm
-    body = _fn_body(src, "ansi_c_quote")
-    arms = re.findall(r"%s\s*=>\s*result\.push_str\(\"((?:\\.|[^\"\\])*)\"\)" % _CHAR_LIT, body)
+    body = _strip_comments(_fn_body(src, "ansi_c_quote"))
+    arms = re.findall(r"%s\s*=>\s*\w+\.push_str\(\"((?:\\.|[^\"\\])*)\"\)" % _CHAR_LIT, body)
     if len(arms) < 5:
         raise ValueError("escape.rs: ansi_c_quote named arms not found")
     named = []
     for lit, rep in arms:
         named.append((_rust_char(lit), _rust_str(rep)))
     flat = re.sub(r"\s+", "", body)
-    if 'cifneeds_ansi_c_quoting(c)=>{result.push_str(std::format!("\\\\{:03o}",casu8).as_str());}' not in flat:
-        raise ValueError("escape.rs: ansi_c_quote octal arm changed")
-    if not re.search(r"_\s*=>\s*result\.push\(c\)", body) or 'result.push_str("$\'")' not in body or not re.search(r"result\.push\('\\''\);\s*result\s*$", body.strip()):
-        raise ValueError("escape.rs: ansi_c_quote frame changed")
-    # characters special by position (the model's `isSpecialByPos`) and where the rule is applied
-    flat = re.sub(r"\s+", "", _fn_body(src, "is_special_by_position"))
-    if flat != "matchc{'~'=>matches!(prev,None|Some(':'|'=')),'#'=>prev.is_none(),_=>false,}":
-        raise ValueError("escape.rs: is_special_by_position changed: %r" % flat)
-    flat = re.sub(r"\s+", "", _fn_body(src, "contains_char_special_by_position"))
-    if flat != "letmutprev=None;forcins.chars(){ifis_special_by_position(prev,c){returntrue;}prev=Some(c);}false":
-        raise ValueError("escape.rs: contains_char_special_by_position changed: %r" % flat)
-    flat = re.sub(r"\s+", "", _fn_body(src, "backslash_escape"))
-    if "ifneeds_escaping(c)||is_special_by_position(prev,c){output.push('\\\\');}output.push(c);prev=Some(c);" not in flat:
-        raise ValueError("escape.rs: backslash_escape no longer escapes characters special by position")
-    flat = re.sub(r"\s+", "", _fn_body(src, "quote"))
-    if "||s.contains(needs_escaping)||contains_char_special_by_position(s))" not in flat:
-        raise ValueError("escape.rs: quote no longer quotes text holding a character special by position")
+    lib.shape_guard(re.search(r'cifneeds_ansi_c_quoting\(c\)=>\{?\w+\.push_str\(std::format!\("\\\\\{:03o\}",casu8\)\.as_str\(\)\);?\}?', flat),
+                    "escape.rs: ansi_c_quote octal arm changed")
+    lib.shape_guard(re.search(r"_\s*=>\s*\w+\.push\(c\)", body) and re.search(r"\w+\.push_str\(\"\$'\"\)", body)
+                    and re.search(r"(\w+)\.push\('\\''\);\s*\1\s*$", body.strip()),
+                    "escape.rs: ansi_c_quote frame changed")
+    # characters special by position (the model's `isSpecialByPos`) and where the rule is applied: transcription
+    # checks of hand-modelled code, not needed for a table -> shape guards
+    flat = re.sub(r"\s+", "", _strip_comments(_fn_body(src, "is_special_by_position")))
+    lib.shape_guard(flat == "matchc{'~'=>matches!(prev,None|Some(':'|'=')),'#'=>prev.is_none(),_=>false,}",
+                    "escape.rs: is_special_by_position changed: %r" % flat[:200])
+    flat = re.sub(r"\s+", "", _strip_comments(_fn_body(src, "contains_char_special_by_position")))
+    lib.shape_guard(flat == "letmutprev=None;forcins.chars(){ifis_special_by_position(prev,c){returntrue;}prev=Some(c);}false",
+                    "escape.rs: contains_char_special_by_position changed: %r" % flat[:200])
+    flat = re.sub(r"\s+", "", _strip_comments(_fn_body(src, "backslash_escape")))
+    lib.shape_guard(re.search(r"ifneeds_escaping\(c\)\|\|is_special_by_position\(prev,c\)\{(\w+)\.push\('\\\\'\);\}\1\.push\(c\);prev=Some\(c\);", flat),
+                    "escape.rs: backslash_escape no longer escapes characters special by position in the transcribed way")
+    flat = re.sub(r"\s+", "", _strip_comments(_fn_body(src, "quote")))
+    lib.shape_guard("||s.contains(needs_escaping)||contains_char_special_by_position(s)" in flat,
+                    "escape.rs: quote no longer quotes text holding a character special by position in the transcribed way")
     # the reader: `\\0` takes at most two more octal digits inside $'…'
-    flat = re.sub(r"\s+", "", _fn_body(src, "expand_backslash_escapes"))
-    if "letmax_more=matchmode{EscapeExpansionMode::EchoBuiltin=>3,EscapeExpansionMode::AnsiCQuotes=>2,};" not in flat \
-            or "iftaken_so_far<max_more&&matches!(*c,'0'..='7')" not in flat:
-        raise ValueError("escape.rs: expand_backslash_escapes: octal digit limit after `\\0` changed")
+    flat = re.sub(r"\s+", "", _strip_comments(_fn_body(src, "expand_backslash_escapes")))
+    lib.shape_guard("letmax_more=matchmode{EscapeExpansionMode::EchoBuiltin=>3,EscapeExpansionMode::AnsiCQuotes=>2,};" in flat
+                    and "iftaken_so_far<max_more&&matches!(*c,'0'..='7')" in flat,
+                    "escape.rs: expand_backslash_escapes: octal digit limit after `\\0` changed")
     out = ["/-! GENERATED by tools/c13.py from brush-core/src/escape.rs — do not edit. -/",
            "namespace BrushVerif.Gen.QuoteTables", "",
            "/-- `needs_escaping` -/",
@@ -425,6 +450,18 @@ def _gen_cases(ctx):
         attrs = rng.choice(ATTRS) if form in ("A", "dp", "ex") else ""
         cases.append(Case("rand", form, attrs, [fit_attrs(rng, attrs, v)]))
     strings = small + [rand_string(rng, 12) for _ in range(400)]
+    # associative keys over the characters that matter inside `[key]=`: all keys to length 2, a slice of length 3
+    keyalpha = ["]", "[", '"', "\\", "'", "$", " ", "a", "=", "~"]
+    klist = [k for n in (1, 2, 3) for k in map("".join, itertools.product(keyalpha, repeat=n))]
+    for i, k in enumerate(klist):
+        if len(k) == 3 and ctx.quick and i % 5:
+            continue
+        for form in (("dpA", "AA") if len(k) < 3 else ("dpA",)):
+            cases.append(Case("exh-key", form, "", [k, "v " + k]))
+    # several such keys in one array (the order is the byte order brush prints)
+    for i in range(0, len(klist) - 3, 3 if ctx.quick else 1):
+        ks = sorted(set(klist[i:i + 3]), key=lambda x: x.encode("utf-8"))
+        cases.append(Case("exh-key", "dpA", "", [t for k in ks for t in (k, k[::-1])]))
     for _ in range(ctx.size(4000, 30000)):
         cases.append(array_case(rng, "rand-array", strings))
     return cases
@@ -449,6 +486,11 @@ def explain(form, attrs, vals, mode, expect, rb, rh):
     `expect`, or None when no listed defect explains it."""
     b_ok, h_ok = rb == expect, rh == expect
     keys = vals[0::2] if form in ("dpA", "AA") else []
+    if keys and not b_ok and h_ok and any("'" in k and has_ctl(k) for k in keys):
+        # the key is printed as $'…\'…' and brush's array-literal key scanner ends the quoted text at the \'
+        return ["assoc_key_ansi_c_escaped_quote"]
+    # tripwire: repaired in /repo (a quoted, escaped or nested `]` no longer ends the key); the entry is `fixed`,
+    # so a return of the behaviour is a VIOLATION
     if keys and not b_ok and h_ok and any("]" in k for k in keys):
         return ["assoc_key_close_bracket"]
     if form == "tr" and vals and "'" in vals[0]:
@@ -870,9 +912,7 @@ def _run_ctx_items(ctx, work, cwd, viol, items, stage):
                 if rb != expect[k] or h != expect[k]:
                     fails.append((k, mode, rb, h))
             ms = msegs.get(form)
-            if inner.kind == "a" and form == "ex":
-                ms = None      # exported arrays in export -p: not modelled (finding export_p_array_elements_lost)
-            elif ms is None or ms[0] != bs[0]:
+            if ms is None or ms[0] != bs[0]:
                 viol("printer/listing model and brush disagree on the text printed in %s" % where
                      + (": and it does not read back to the visible value" if fails else ""), cd,
                      kind="property" if fails else "correspondence")
@@ -886,6 +926,7 @@ def _run_ctx_items(ctx, work, cwd, viol, items, stage):
                 eform = {"dpl": "dp", "lp": "dp"}.get(form, form)
                 if inner.kind == "a" and form == "ex":
                     first = "V %s a 0 %s" % (eff, esc(inner.vals[0]))
+                    # tripwire (repaired in /repo: export -p prints every element)
                     clause = ["export_p_array_elements_lost"] if len(inner.vals) > 1 and rb == h == first else None
                 elif it.rm == "rd" and rb != expect[k] and h == expect[k] and \
                         any((ord(ch) < 0x20 and ch not in "\t\n\r\x0c") or ord(ch) == 0x7f for ch in cd["text"]):
